@@ -35,6 +35,17 @@ Theorem C20_established_as_plain : forall completes fails decrypt acc ins,
 Proof. exact established_as_plain. Qed.
 Print Assumptions C20_established_as_plain.
 
+(* a TLS-level error that leaves the TCP connection up (the peer's close_notify while it waits for the answer, a warning
+   alert): before the handshake is over it ends the connection; afterwards it changes nothing, wherever it falls *)
+Theorem C20_alert_before_handshake_releases : forall completes fails decrypt acc r,
+  trun completes fails decrypt (mkT TWait acc) (TAlert :: r) = [ORelease].
+Proof. exact alert_before_handshake_releases. Qed.
+Print Assumptions C20_alert_before_handshake_releases.
+Theorem C20_alert_after_handshake_harmless : forall completes fails decrypt acc pre post,
+  trun completes fails decrypt (mkT TEnc acc) (pre ++ TAlert :: post) = trun completes fails decrypt (mkT TEnc acc) (pre ++ post).
+Proof. exact alert_after_handshake_harmless. Qed.
+Print Assumptions C20_alert_after_handshake_harmless.
+
 Theorem C20_premises_satisfiable :
   let completes := fun a => beq a (B "abc") in
   let fails := fun a => negb (is_prefix a (B "abc")) && negb (is_prefix (B "abc") a) in
